@@ -456,17 +456,64 @@ theorem createOracleSetRequest_frame (s : State) (h : Nat) (s' : State) (he : cr
   | ok cur =>
     rw [hcur] at he
     simp only at he
-    by_cases hc : (needOracleSet s h cur && !cur.isEmpty) = true
-    · rw [if_pos hc] at he; injection he with he; subst he; exact ⟨by constructor <;> rfl, rfl⟩
-    · rw [if_neg hc] at he; injection he with he; subst he; exact ⟨OuterCore.refl s, rfl⟩
+    cases hneed : needOracleSet s h cur with
+    | error e => rw [hneed] at he; simp at he
+    | ok need =>
+      rw [hneed] at he
+      simp only at he
+      by_cases hc : (need && !cur.isEmpty) = true
+      · rw [if_pos hc] at he; injection he with he; subst he; exact ⟨by constructor <;> rfl, rfl⟩
+      · rw [if_neg hc] at he; injection he with he; subst he; exact ⟨OuterCore.refl s, rfl⟩
 
-theorem createOracleSetRequest_total (s : State) (h : Nat) (hf : PowerFits s) :
+/-- what the refresh decision needs from the code (regenerated): the nil test of the latest oracle set comes before the
+power-difference step (which dereferences it), and the float is rendered with a FIXED number of decimals that
+`LegacyNewDecFromStr` accepts (≤ 18) -/
+def RefreshCodeOk : Prop :=
+  needChecks = [.latestNil, .slashThisBlock, .powerDiff] ∧
+  (match powerDiffFormat with | .fixed n => decide (n ≤ decPrecision) | _ => false) = true
+
+instance : Decidable RefreshCodeOk := by unfold RefreshCodeOk; infer_instance
+
+/-- with a fixed format of at most 18 decimals every power difference parses -/
+theorem powerDiffParsed_isSome (hr : RefreshCodeOk) (delta : Nat) : ∃ v, powerDiffParsed delta = some v := by
+  obtain ⟨_, hf⟩ := hr
+  unfold powerDiffParsed
+  cases hfmt : powerDiffFormat with
+  | fixed n =>
+    rw [hfmt] at hf
+    have hn : n ≤ decPrecision := by simpa using hf
+    simp only [hn, if_true]
+    exact ⟨_, rfl⟩
+  | shortest => rw [hfmt] at hf; simp at hf
+  | other => rw [hfmt] at hf; simp at hf
+
+/-- the refresh decision never panics -/
+theorem needOracleSet_total (hr : RefreshCodeOk) (s : State) (h : Nat) (cur : List (Nat × Nat)) :
+    ∃ b, needOracleSet s h cur = .ok b := by
+  unfold needOracleSet
+  rw [hr.1]
+  simp only [needGo]
+  cases hl : latestSet s with
+  | none => exact ⟨true, rfl⟩
+  | some latest =>
+    simp only
+    split
+    · exact ⟨true, rfl⟩
+    · obtain ⟨v, hv⟩ := powerDiffParsed_isSome hr (powerDelta cur latest.members)
+      rw [hv]
+      simp only
+      split
+      · exact ⟨true, rfl⟩
+      · exact ⟨false, rfl⟩
+
+theorem createOracleSetRequest_total (hr : RefreshCodeOk) (s : State) (h : Nat) (hf : PowerFits s) :
     ∃ s', createOracleSetRequest s h = .ok s' := by
   obtain ⟨cur, hcur⟩ := currentMembers_ok s hf
+  obtain ⟨need, hneed⟩ := needOracleSet_total hr s h cur
   unfold createOracleSetRequest
   rw [hcur]
-  simp only
-  by_cases hc : (needOracleSet s h cur && !cur.isEmpty) = true
+  simp only [hneed]
+  by_cases hc : (need && !cur.isEmpty) = true
   · rw [if_pos hc]; exact ⟨_, rfl⟩
   · rw [if_neg hc]; exact ⟨_, rfl⟩
 
@@ -499,11 +546,11 @@ theorem endBlock_rel (hcode : SlashCodeOk) (s : State) (h : Nat) (s' : State) (h
     exact ⟨g, by rw [o3, o2, hg], hrel⟩
 
 /-- the crosschain end-blocker is total, given the code facts and the `uint64` range -/
-theorem endBlock_total (hcode : SlashCodeOk) (s : State) (h : Nat) (hf : PowerFits s) :
+theorem endBlock_total (hcode : SlashCodeOk) (hr : RefreshCodeOk) (s : State) (h : Nat) (hf : PowerFits s) :
     ∃ s', endBlock s h = .ok s' := by
   obtain ⟨s1, e1, r1⟩ := slashing_rel hcode s h
   have hf1 : PowerFits s1 := powerFits_of_recs s s1 h r1.core.p r1.recs hf
-  obtain ⟨s2, e2⟩ := createOracleSetRequest_total s1 h hf1
+  obtain ⟨s2, e2⟩ := createOracleSetRequest_total hr s1 h hf1
   exact ⟨pruneOracleSet s2 h, by unfold endBlock; rw [e1]; simp only [e2]⟩
 
 end FxVerif.Proofs.C13
